@@ -823,7 +823,7 @@ def check_C04(tier, nproc=None):
     for t in XT:
         c.add(Job('vH_FP_expo', [('tmpl', 'd', t)], pkg=FP, weight=300, opts={'scanvalue': True, 'nsamples': 2, 'ex.ite_merging': False}))
     # tier 5f: the digit buffer holds every exact halfway point (else decimal.set drops digits of a tie, sets trunc, and the
-    # tie is rounded up instead of to even): for every binade, every even mantissa -- one integer inequality per binade
+    # tie is rounded up instead of to even): for every binade, every mantissa -- one integer inequality per binade
     e2s = [-1074, -1073, -1060, -1022, -1000, -800, -537, -300, -100, -53, -1, 0, 1, 52, 500, 971] if tier == 'quick' else list(range(-1074, 972))
     for e2 in e2s:
         c.add(Job('vH_FP_halfway', [('int', e2)], pkg=FP, weight=5, opts={'scanvalue': True, 'nsamples': (1 if e2 % 97 == 0 or e2 < -1072 else 0)}))
@@ -840,7 +840,7 @@ def check_C04(tier, nproc=None):
                 'decimal_set_templates': [_tmplstr(t) for t in S6],
                 'floatbits_abstract_decimal_templates': [_tmplstr(t) for t in S7],
                 'exponent_templates (every exponent digit string)': [_tmplstr(t) if len(_tmplstr(t)) < 60 else _tmplstr(t)[:20] + '...' + _tmplstr(t)[-16:] for t in XT],
-                'halfway_points_fit_the_digit_buffer': 'for binades with ulp 2^e2, e2 in %s: every even mantissa below 2^53 (one integer inequality each; the buffer length is read from the code)' % ('-1074..971' if tier != 'quick' else e2s),
+                'halfway_points_fit_the_digit_buffer': 'for binades with ulp 2^e2, e2 in %s: every mantissa below 2^53-1 (one integer inequality each; the buffer length is read from the code)' % ('-1074..971' if tier != 'quick' else e2s),
                 'rounded_integer_unit': 'RoundedInteger on every normalised decimal of 1..%d digits, decimal point 0..nd+2, truncation flag both ways (truncated only with a fractional last digit)' % (3 if tier == 'quick' else 5),
                 'exact_path': 'atof64exact for every decimal exponent -26..41, both signs, every 64-bit mantissa',
                 'eisel_lemire': 'every one of the 696 table rows x every 64-bit mantissa with 0 leading zeros; leading-zero counts %s on %s rows; negative sign on the same rows' % (extra_clz, 'every 58th' if tier == 'quick' else 'all')}
